@@ -1,3 +1,4 @@
+mod c15;
 mod c16;
 mod hist;
 mod sim;
@@ -21,6 +22,12 @@ fn main() {
             hist::install_panic_recorder();
             let rt = tokio::runtime::Builder::new_multi_thread().worker_threads(2).enable_all().build().unwrap();
             rt.block_on(c14_child(&args));
+        }
+        "C15" => c15_parent(&args),
+        "C15-fresh" | "C15-resume" => {
+            hist::install_panic_recorder();
+            let rt = tokio::runtime::Builder::new_multi_thread().worker_threads(2).enable_all().build().unwrap();
+            rt.block_on(c15_child(&args));
         }
         "C16" => c16_parent(&args),
         "C16-child" => {
@@ -313,4 +320,208 @@ async fn c16_history(mon: &mut Monitor, rng: &mut rand_chacha::ChaCha20Rng, dir:
     hist::verify_all(&mut run, mon, hid).await?;
     run.sim.builder.drop_sqlite_connections().await;
     Ok(())
+}
+
+// ---------------------------------------------------------------------------------------------
+// C15
+
+async fn c15_child(args: &vcore::Args) {
+    let out = PathBuf::from(arg_value(args, "out").unwrap_or_else(|| "/tmp/c15-child.json".into()));
+    let dir = PathBuf::from(arg_value(args, "dir").unwrap_or_else(|| "/tmp/c15-child-data".into()));
+    let script: u64 = arg_value(args, "script").and_then(|s| s.parse().ok()).unwrap_or(0);
+    let steps: u64 = arg_value(args, "steps").and_then(|s| s.parse().ok()).unwrap_or(8);
+    let label = arg_value(args, "label").unwrap_or_default();
+    let mut mon = Monitor::with("C15", args.tier, args.seed);
+    mon.level = "fault_enumeration".into();
+    let res = if args.prop == "C15-fresh" {
+        c15::run_fresh(dir, script, steps, &mut mon).await.map(|_| json!({"phase": "fresh", "completed": true}))
+    } else {
+        c15::run_resume(dir, &mut mon, &label, steps).await
+    };
+    let mut d = mon.dump();
+    match res {
+        Ok(v) => d["verdict"] = v,
+        Err(e) => d["harness_error"] = json!(format!("{e:#}").chars().take(400).collect::<String>()),
+    }
+    let _ = std::fs::write(&out, serde_json::to_string(&d).unwrap());
+}
+
+struct ChildResult {
+    status: Option<i32>,
+    signal_abort: bool,
+    timed_out: bool,
+    report: Option<Value>,
+}
+
+fn run_one_child(prop: &str, tier: Tier, seed: u64, dir: &std::path::Path, out: &std::path::Path, extra: &[String], env: &[(&str, String)], timeout_s: u64) -> ChildResult {
+    let _ = std::fs::remove_file(out);
+    let exe = std::env::current_exe().unwrap();
+    let mut cmd = Command::new(exe);
+    cmd.arg(prop).arg("--tier").arg(tier.as_str()).arg(format!("--out={}", out.display())).arg(format!("--dir={}", dir.display())).args(extra).env("VERIF_SEED", seed.to_string()).stdout(std::process::Stdio::null()).stderr(if std::env::var("VERIF_DEBUG").is_ok() { std::process::Stdio::inherit() } else { std::process::Stdio::null() });
+    cmd.env_remove("MITHRIL_VERIF_CRASH").env_remove("MITHRIL_VERIF_CRASH_LOG");
+    for (k, v) in env {
+        cmd.env(k, v);
+    }
+    let mut child = cmd.spawn().expect("spawn");
+    let t0 = std::time::Instant::now();
+    loop {
+        match child.try_wait() {
+            Ok(Some(st)) => {
+                use std::os::unix::process::ExitStatusExt;
+                let report = std::fs::read_to_string(out).ok().and_then(|t| serde_json::from_str::<Value>(&t).ok());
+                return ChildResult { status: st.code(), signal_abort: st.signal() == Some(6), timed_out: false, report };
+            }
+            Ok(None) => {
+                if t0.elapsed().as_secs() > timeout_s {
+                    let _ = child.kill();
+                    let _ = child.wait();
+                    return ChildResult { status: None, signal_abort: false, timed_out: true, report: None };
+                }
+                std::thread::sleep(std::time::Duration::from_millis(20));
+            }
+            Err(_) => return ChildResult { status: None, signal_abort: false, timed_out: false, report: None },
+        }
+    }
+}
+
+fn c15_parent(args: &vcore::Args) {
+    let mut mon = Monitor::new(args);
+    mon.level = "fault_enumeration".into();
+    let root = scratch_root();
+    let _ = std::fs::create_dir_all(&root);
+    let (scripts, steps, pairs): (u64, u64, usize) = match args.tier {
+        Tier::Quick => (3, 7, 6),
+        Tier::Thorough => (24, 10, 40),
+    };
+    let progress_steps = 8u64;
+    let seed = args.seed;
+    let tier = args.tier;
+    // ---- phase A: unarmed base runs record which (point, occurrence) pairs are reachable
+    let mut jobs: Vec<(u64, Vec<(String, u64)>)> = vec![]; // (script, crash sequence)
+    let mut base_hits_all: std::collections::BTreeMap<String, u64> = Default::default();
+    for sc in 0..scripts {
+        let script = seed.wrapping_mul(1000) + sc;
+        let dir = root.join(format!("base-{sc}"));
+        let log = root.join(format!("base-{sc}.hits"));
+        let r = run_one_child("C15-fresh", tier, seed, &dir, &root.join(format!("base-{sc}.json")), &[format!("--script={script}"), format!("--steps={steps}")], &[("MITHRIL_VERIF_CRASH_LOG", log.display().to_string())], 600);
+        match (&r.report, r.status) {
+            (Some(rep), Some(0)) if rep.get("harness_error").is_none() => {
+                mon.absorb(rep);
+                mon.count("base_runs_completed");
+            }
+            _ => {
+                mon.inconclusive(&format!("base run of script {script} did not complete (status {:?}, timed out {}, error {:?})", r.status, r.timed_out, r.report.as_ref().and_then(|x| x.get("harness_error").cloned())));
+                continue;
+            }
+        }
+        let mut hits: std::collections::BTreeMap<String, u64> = Default::default();
+        for l in std::fs::read_to_string(&log).unwrap_or_default().lines() {
+            *hits.entry(l.trim().to_string()).or_insert(0) += 1;
+        }
+        for (p, n) in &hits {
+            *base_hits_all.entry(p.clone()).or_insert(0) += n;
+            for occ in 1..=*n {
+                jobs.push((script, vec![(p.clone(), occ)]));
+            }
+        }
+        // double crashes: a second crash during the resumed run (seeded choice)
+        let mut rng = mon.rng("c15-pairs", sc);
+        let points: Vec<(String, u64)> = hits.iter().map(|(p, n)| (p.clone(), *n)).collect();
+        if !points.is_empty() {
+            for _ in 0..pairs {
+                let (p1, n1) = rnd::pick(&mut rng, &points).clone();
+                let (p2, _) = rnd::pick(&mut rng, &points).clone();
+                jobs.push((script, vec![(p1, 1 + rnd::below(&mut rng, n1)), (p2, 1 + rnd::below(&mut rng, 2))]));
+            }
+        }
+        let _ = std::fs::remove_dir_all(&dir);
+    }
+    for (p, n) in &base_hits_all {
+        mon.count_n(&format!("base_hits:{p}"), *n);
+    }
+    let not_reached: Vec<&str> = c15::POINTS.iter().copied().filter(|p| !base_hits_all.contains_key(*p)).collect();
+    mon.extra.insert("crash_points_not_reached_by_the_base_runs".into(), json!(not_reached));
+    mon.extra.insert("exhaustive".into(), json!(true));
+    mon.extra.insert("exhaustive_scope".into(), json!("every (crash point, occurrence) pair reached by the base histories of this run is crashed once; double crashes are sampled"));
+    // ---- phase B: armed runs, in parallel
+    let results: std::sync::Mutex<Vec<(String, Value)>> = std::sync::Mutex::new(vec![]);
+    let next = std::sync::atomic::AtomicUsize::new(0);
+    let threads = vcore::default_threads().min(16);
+    let mons: std::sync::Mutex<Vec<Monitor>> = std::sync::Mutex::new(vec![]);
+    std::thread::scope(|s| {
+        for _ in 0..threads {
+            s.spawn(|| {
+                let mut m = mon.fork();
+                loop {
+                    let j = next.fetch_add(1, std::sync::atomic::Ordering::SeqCst);
+                    if j >= jobs.len() {
+                        break;
+                    }
+                    let (script, crashes) = &jobs[j];
+                    let label = crashes.iter().map(|(p, n)| format!("{p}@{n}")).collect::<Vec<_>>().join("+");
+                    let dir = root.join(format!("job-{j}"));
+                    let out = root.join(format!("job-{j}.json"));
+                    m.eval();
+                    m.count(if crashes.len() == 1 { "crash_runs:single" } else { "crash_runs:double" });
+                    // first crash: fresh armed run
+                    let (p1, n1) = &crashes[0];
+                    let r = run_one_child("C15-fresh", tier, seed, &dir, &out, &[format!("--script={script}"), format!("--steps={steps}")], &[("MITHRIL_VERIF_CRASH", format!("{p1}@{n1}"))], 600);
+                    if !r.signal_abort {
+                        m.count("armed_run_did_not_abort");
+                        m.inconclusive(&format!("script {script} {label}: the armed run did not abort (status {:?}, timed out {})", r.status, r.timed_out));
+                        let _ = std::fs::remove_dir_all(&dir);
+                        continue;
+                    }
+                    m.count(&format!("crashed_at:{p1}"));
+                    let mut aborted_again = false;
+                    if crashes.len() == 2 {
+                        let (p2, n2) = &crashes[1];
+                        let r2 = run_one_child("C15-resume", tier, seed, &dir, &out, &[format!("--label={label}"), format!("--steps={progress_steps}")], &[("MITHRIL_VERIF_CRASH", format!("{p2}@{n2}"))], 600);
+                        aborted_again = r2.signal_abort;
+                        if aborted_again {
+                            m.count(&format!("crashed_again_at:{p2}"));
+                        } else if let Some(rep) = &r2.report {
+                            // the second point was not reached: this resumed run is already the final one
+                            m.absorb(rep);
+                            m.nontrivial_str(&format!("{script}|{label}"));
+                            results.lock().unwrap().push((label.clone(), rep["verdict"].clone()));
+                            let _ = std::fs::remove_dir_all(&dir);
+                            continue;
+                        }
+                    }
+                    let _ = aborted_again;
+                    // final unarmed resume: invariants + bounded progress
+                    let r3 = run_one_child("C15-resume", tier, seed, &dir, &out, &[format!("--label={label}"), format!("--steps={progress_steps}")], &[], 600);
+                    match r3.report {
+                        Some(rep) if rep.get("harness_error").is_none() => {
+                            m.absorb(&rep);
+                            m.nontrivial_str(&format!("{script}|{label}"));
+                            results.lock().unwrap().push((label.clone(), rep["verdict"].clone()));
+                        }
+                        Some(rep) => m.inconclusive(&format!("script {script} {label}: resumed run failed in the harness: {}", rep["harness_error"])),
+                        None => m.inconclusive(&format!("script {script} {label}: resumed run ended without a report (status {:?}, timed out {})", r3.status, r3.timed_out)),
+                    }
+                    let _ = std::fs::remove_dir_all(&dir);
+                }
+                mons.lock().unwrap().push(m);
+            });
+        }
+    });
+    for m in mons.into_inner().unwrap() {
+        mon.merge(m);
+    }
+    let res = results.into_inner().unwrap();
+    for (label, v) in res.iter().take(6) {
+        mon.sample(json!({"crash": label, "verdict": v}));
+    }
+    let _ = std::fs::remove_dir_all(&root);
+    let min = match args.tier {
+        Tier::Quick => 30,
+        Tier::Thorough => 300,
+    };
+    mon.finish(
+        "base histories = scripted honest workload over the real aggregator (new immutables, blocks, epoch changes, every signer signs every open message, some signatures early => buffered) run once unarmed with the crash-point hit log on; then for EVERY (crash point, occurrence) reached a fresh child process runs the same script with MITHRIL_VERIF_CRASH=<point>@<n> and is killed by std::process::abort() inside the aggregator; a new process restarts on the same files and checks: every certificate verifies with its chain (public verifier), no signed entity has two artifacts, every artifact references a stored certificate of exactly that entity - right after the restart and after every further tick - and bounded progress: within 8 macro steps of the honest workload a certificate with artifact for a beacon that had none appears. Double crashes (second abort during the resumed run) are sampled. Non-trivial = one (script, crash sequence) that really aborted and was resumed; distinct by (script, crash sequence).",
+        &["sqlite durability (journal/WAL recovery) is trusted", "doubles of the outside world are re-created at the persisted time point; blocks above the highest stored block are served again", "a second certificate for the entity whose open message was not yet marked certified is outside the statement's list: counted as diagnostic"],
+        min,
+    );
 }
